@@ -243,6 +243,22 @@ def one_case(ctx, a, b, c):
             # positive_fields on the difference
             r.positive_fields(F[:2])
             r.positive_fields(F[0])
+            # ... and it stays a value when it is reached through a copy (a caller keeping a copy of a result, an object holding it
+            # copied or pickled): same fields, usable in arithmetic
+            ctx.count('law:copy-of-a-result')
+            import copy as _copy
+            import pickle as _pickle
+            for how, mk in (('copy', _copy.copy), ('deepcopy', _copy.deepcopy), ('pickle', lambda x: _pickle.loads(_pickle.dumps(x)))):
+                try:
+                    r2 = mk(r)
+                    ok = dd(r2) == dd(r) and dd(r2 + b) == dd(r + b) and r2.negative_fields() == r.negative_fields()
+                except Exception as e:
+                    ctx.violation(f'C15/copy-of-a-result-raises:{how}', 'a result (negative fields included) is a value: a copy of it can be '
+                                  f'made and used, not {type(e).__name__}: {e}', dict(w, result=dd(r)))
+                    break
+                if not ok:
+                    ctx.violation(f'C15/copy-of-a-result-differs:{how}', 'a copy of a result has the same fields', dict(w, result=dd(r), copy=dd(r2)))
+                    break
         # comparisons whose operands are themselves differences (over-allocation leaves negative fields):
         # the 'fits within' relation must still agree with subtraction, field by field
         ctx.count('law:compare-with-negative-operand')
